@@ -36,16 +36,24 @@ func (c *fakeClock) Sleep(d time.Duration) { c.now = c.now.Add(d) }
 
 type thConfig struct {
 	BucketSecs int
-	Refill     time.Duration
-	MinSecs    int // min-secs + preview-secs as wired by main.go
-	FPS        int
+	// BucketExtraMS adds a fraction of a second to bucket-size (C05 only: the bound is then
+	// floor(bucket-size*fps) frames; the C06 reference models whole seconds)
+	BucketExtraMS int
+	Refill        time.Duration
+	MinSecs       int // min-secs + preview-secs as wired by main.go
+	FPS           int
 }
 
-func (c thConfig) B() int64      { return int64(c.BucketSecs) * int64(c.FPS) }
+func (c thConfig) B() int64 {
+	return (int64(c.BucketSecs)*1000 + int64(c.BucketExtraMS)) * int64(c.FPS) / 1000
+}
+func (c thConfig) bucketSize() time.Duration {
+	return time.Duration(c.BucketSecs)*time.Second + time.Duration(c.BucketExtraMS)*time.Millisecond
+}
 func (c thConfig) minLen() int64 { return int64(c.MinSecs * c.FPS) }
 func (c thConfig) rate() float64 { return float64(c.minLen()) / c.Refill.Seconds() }
 func (c thConfig) String() string {
-	return fmt.Sprintf("bucket=%ds refill=%v min+preview=%ds fps=%d (B=%d frames, minLen=%d, rate=%.4g/s)", c.BucketSecs, c.Refill, c.MinSecs, c.FPS, c.B(), c.minLen(), c.rate())
+	return fmt.Sprintf("bucket=%v refill=%v min+preview=%ds fps=%d (B=%d frames, minLen=%d, rate=%.4g/s)", c.bucketSize(), c.Refill, c.MinSecs, c.FPS, c.B(), c.minLen(), c.rate())
 }
 
 type baseOp struct {
@@ -188,7 +196,7 @@ type thRun struct {
 func newThRun(cfg thConfig) *thRun {
 	r := &thRun{cfg: cfg, clock: &fakeClock{now: time.Date(2021, 1, 1, 0, 0, 0, 0, time.UTC)}, events: &evCounter{}}
 	r.base = &baseSink{clock: r.clock}
-	tc := &config.ThermalThrottler{Activate: true, BucketSize: time.Duration(cfg.BucketSecs) * time.Second, MinRefill: cfg.Refill}
+	tc := &config.ThermalThrottler{Activate: true, BucketSize: cfg.bucketSize(), MinRefill: cfg.Refill}
 	r.th = NewThrottledRecorderWithClock(r.base, tc, cfg.MinSecs, r.events, r.clock, tCam{4, 3, cfg.FPS})
 	return r
 }
@@ -491,7 +499,7 @@ func runSchedule(c *vCtx, prop string, cfg thConfig, ops []callerOp, startFail f
 		th := uint16(3000 + i%7)
 		m.apply(r, i, op, frame, bg, th)
 		callerRec = m.callerRec
-		if m.viol != nil && r.base.writeFail == nil {
+		if m.viol != nil && r.base.writeFail == nil && cfg.BucketExtraMS == 0 {
 			break
 		}
 	}
@@ -559,6 +567,11 @@ func TestVerif_Throttle(t *testing.T) {
 		}
 		rng := c.RNG(myIdx)
 		cfg := thRandomConfig(rng)
+		if prop == "C05" && myIdx%5 == 3 {
+			// a bucket-size that is not a whole number of seconds, also on fast cameras
+			cfg.BucketSecs, cfg.BucketExtraMS = 1+int(myIdx%2), []int{500, 100, 900}[myIdx%3]
+			cfg.FPS = []int{9, 27, 60, 3}[myIdx%4]
+		}
 		nops := rng.Range(5, 600)
 		if rng.Chance(3) {
 			nops = 6000
@@ -581,6 +594,9 @@ func TestVerif_Throttle(t *testing.T) {
 			}
 			runSchedule(c, prop, cfg, ops, sf, "random-schedule")
 			thWriteFail = nil
+			if cfg.BucketExtraMS > 0 {
+				c.Count("schedules_with_fractional_bucket_size", 1)
+			}
 			if pf > 0 {
 				c.Count("schedules_with_start_failures", 1)
 			}
